@@ -28,15 +28,21 @@ def short(qualname):
     return ".".join(qualname.split(".")[-2:])
 
 
-def apply_contract(I, con, f, args, kwargs, bound_self, caller=None):
+def announce_call(I, con, args, kwargs):
+    """records that the call was made (before anything the callee does, before any suspension in it)"""
+    _observe(I, "call:" + (con.effect_name or con.qualname), tuple(args))
+    I.ctx.emit("call", con.effect_name or con.qualname, tuple(args), dict(kwargs))
+
+
+def apply_contract(I, con, f, args, kwargs, bound_self, caller=None, announced=False):
     ctx = I.ctx
     caller = caller or I.current_target or "?"
     bindings = bind_params(f, args, kwargs, bound_self)
     for name, lam in con.lets:
         bindings[name] = _eval_value(I, lam, bindings)
     ctx.assumptions_used.add(f"contract:{con.qualname}")
-    _observe(I, "call:" + (con.effect_name or con.qualname), tuple(args))
-    ctx.emit("call", con.effect_name or con.qualname, tuple(args), dict(kwargs))
+    if not announced:
+        announce_call(I, con, args, kwargs)
     for cid, lam in con.requires_:
         fm = eval_clause(I, lam, bindings)
         ctx.check_obligation(f"{caller}::call[{short(con.qualname)}].{cid}", fm)
@@ -68,10 +74,7 @@ def apply_contract(I, con, f, args, kwargs, bound_self, caller=None):
         ]
         from .engine import _is_async
 
-        if con.modifies_ is not None and _is_async(con):
-            for f_ in (spec.interference if spec.interference is not None else spec.fields):
-                if f_ not in fields and f_ + ".*" not in fields:
-                    fields.append(f_)
+        _ = _is_async
         for fld in fields:
             deep = fld.endswith(".*")
             if deep:
@@ -102,6 +105,8 @@ def apply_contract(I, con, f, args, kwargs, bound_self, caller=None):
             # verification shows); nothing is assumed when the caller calls it mid-update
             inv_after = [_z(f) for _i, f in spec.invariant_formulas(I, self_obj)]
             ctx.assume(z3.Implies(z3.And(inv_before), z3.And(inv_after)))
+    if getattr(con, "post_call", None) is not None:
+        con.post_call(I, bindings)
     result = None
     if getattr(con, "returns_fn", None) is not None:
         result = con.returns_fn(I, bindings)
